@@ -171,11 +171,17 @@ def make_op(W, name, tag):
         drivers.append(driver)
     elif name == 'queue.put':
         async def victim():
-            await W.queue.put(tag)
-            await W.queue.put(tag)
+            try:
+                await W.queue.put(tag)
+                await W.queue.put(tag)
+            except StreamClosed:        # documented: the queue was closed by another op
+                L('closed')
 
         async def driver():
-            L('got', await W.queue)
+            try:
+                L('got', await W.queue)
+            except StreamClosed:
+                L('driver-closed')
         drivers.append(driver)
     elif name in ('await queue', 'for queue'):
         w = n('w')
@@ -206,7 +212,10 @@ def make_op(W, name, tag):
         drivers.append(rival)
     elif name == 'channel.put':
         async def victim():
-            await W.channel.put(tag)
+            try:
+                await W.channel.put(tag)
+            except StreamClosed:        # documented: the channel was closed by another op
+                L('closed')
 
         async def driver():
             try:
